@@ -426,13 +426,13 @@ type viol struct {
 }
 
 type trieRes struct {
-	key    uint32
-	ckey   uint32
-	root   [32]byte
-	uroot  [32]byte // reference root for the same content
-	class  string
-	shape  string
-	viols  []viol
+	key   uint32
+	ckey  uint32
+	root  [32]byte
+	uroot [32]byte // reference root for the same content
+	class string
+	shape string
+	viols []viol
 }
 
 func (r *trieRes) digest() string { return core.Hash(r.key, r.root, r.class, r.shape, len(r.viols)) }
